@@ -202,8 +202,14 @@ func (k Keeper) UpdateNSTValidatorListForStaker(ctx sdk.Context, assetID, staker
 		if stakerExists == stakerAddr {
 			if newBalance.Balance <= 0 {
 				stakerList.StakerAddrs = append(stakerList.StakerAddrs[:idx], stakerList.StakerAddrs[idx+1:]...)
-				valueStakerList = k.cdc.MustMarshal(&stakerList)
-				store.Set(keyStakerList, valueStakerList)
+				if len(stakerList.StakerAddrs) == 0 {
+					// the last staker of this asset has left: an empty list without any
+					// staker info would fail the genesis validation of an exported state
+					store.Delete(keyStakerList)
+				} else {
+					valueStakerList = k.cdc.MustMarshal(&stakerList)
+					store.Set(keyStakerList, valueStakerList)
+				}
 				// the stakers behind the removed one move up by one position: keep the
 				// index stored with each of them in step with the list
 				for i := idx; i < len(stakerList.StakerAddrs); i++ {
